@@ -96,6 +96,8 @@ func (input *CueInput) interpolateParameters(interpolator ParametersInterpolator
 	input.InputBase.interpolateParameters(interpolator)
 
 	input.Entrypoint = interpolator(input.Entrypoint)
+	input.ForcedEnvelope = interpolator(input.ForcedEnvelope)
+	input.Package = interpolator(input.Package)
 	input.CueImports = tools.Map(input.CueImports, interpolator)
 }
 
